@@ -166,15 +166,67 @@ def run(tier, seed, replay=None):
                 uniq.append(s)
         scripts = uniq
 
-    def execute(batch, par=None, tag=""):
-        reqs = ["consts"] + ["%d %s" % (i, s) for i, s in enumerate(batch)]
+    crash_budget = [10]
+
+    def run_proc(reqs, par, tag):
         env = {"VERIF_C15_PAR": str(par)} if par else None
-        rc, lines, glog = vlib.run_harness(exe, "TestVerifC15", "\n".join(reqs) + "\n", timeout=1500, extra_env=env, tag=tag)
+        rc, raw, glog = vlib.run_harness(exe, "TestVerifC15", "\n".join(reqs) + "\n", timeout=1500, extra_env=env, tag=tag)
+        ans, started = [None] * len(reqs), set()
+        for l in raw:
+            if l.startswith("S "):
+                started.add(int(l.split()[1]))
+            elif l.startswith("R "):
+                _, i, a = l.split(" ", 2)
+                ans[int(i)] = a
+                started.discard(int(i))
+        return ans, started, rc, glog
+
+    def execute(batch, par=None, tag=""):
+        """answers for 'consts' + every script; when the worker process dies, the scripts that were
+        running are run alone and the one that crashes alone is reported as such"""
+        reqs = ["consts"] + ["%d %s" % (i, s) for i, s in enumerate(batch)]
+        answers = [None] * len(reqs)
+        todo = list(range(len(reqs)))
+        glog_all, rounds = "", 0
+        while todo:
+            rounds += 1
+            ans, inflight, rc, glog = run_proc([reqs[i] for i in todo], par, "%s_p%d" % (tag, rounds))
+            glog_all = glog
+            for k, i in enumerate(todo):
+                if ans[k] is not None:
+                    answers[i] = ans[k]
+            if all(answers[i] is not None for i in todo) or (rc == 0 and not inflight) or rounds > 6:
+                break
+            for k in sorted(inflight):
+                i = todo[k]
+                if crash_budget[0] <= 0:
+                    answers[i] = "!crash-not-examined"
+                    continue
+                crash_budget[0] -= 1
+                a1, _, rc1, glog1 = run_proc([reqs[i]], par, "%s_c%d" % (tag, i))
+                if a1[0] is not None:
+                    answers[i] = a1[0]
+                    continue
+                answers[i] = "!crash"
+                m = re.search(r"(panic: [^\n]*|fatal error: [^\n]*)", glog1)
+                fn = re.search(r"\n(?:github.com/edgexfoundry/device-rfid-llrp-go/)?([\w/.()*]+)\(.*\n\t/.*(?:internal|pkg)/", glog1)
+                scr = batch[i - 1]
+                res.violation("process-crash:" + (fn.group(1).split("/")[-1] if fn else scr[:60]),
+                              "script '%s' takes the whole service process down: %s" % (scr, (m.group(1) if m else "worker ended without an answer")[:300]),
+                              dict(kind="script", script=scr, scripts=[scr], log_tail=glog1[-2500:], clause="process-crash"))
+            if crash_budget[0] <= 0:
+                break
+            todo = [i for i in todo if answers[i] is None]
+        missing = [i for i in range(len(reqs)) if answers[i] is None]
+        rc = 0 if not missing else 1
+        lines = [a if a is not None else "!noanswer" for a in answers]
         orc, oout = vlib.run_oracle("c15", "consts\n" + "".join("run %s\n" % s for s in batch))
-        return rc, lines, glog, [l for l in oout.split("\n")]
+        return rc, lines, glog_all, [l for l in oout.split("\n")]
 
     rc, lines, glog, olines = execute(scripts)
     if rc != 0 or len(lines) != len(scripts) + 1:
+        if any(v[0].startswith("process-crash") for v in res.violations):
+            return res.finish()     # the tree keeps crashing; the pinned crash says it all
         res.violation("harness-run", "Go harness failed (rc=%s, %d/%d answers): %s" % (rc, len(lines), len(scripts) + 1, glog[-1500:]),
                       dict(kind="harness", log=glog[-3000:]), False)
         return res.finish()
@@ -217,6 +269,8 @@ def run(tier, seed, replay=None):
             continue
         if len(samples) < 5 and len(s.split()) >= 7:
             samples.append(dict(script=s, go=g, model=o))
+        if g.startswith("!crash"):
+            continue
         if differs(g, o) or clauses(s.split()[0] == "1", parse(g)[0]):
             suspects.append(s)
 
